@@ -69,6 +69,17 @@ OverrideVerdict(c, o) == IF ~o.args_priority THEN "ConfigDoesNotOverrideArgument
                          ELSE IF ~o.file_same THEN "SettingsFileChangedByRun"
                          ELSE IF ~o.unknown_ignored THEN "UnknownParameterAdded" ELSE "ok"
 
+\* evo_config set -c FILE [tokens] --merge OTHER [--soft]: FILE becomes the union (OTHER's values win unless --soft: then only missing
+\* keys are added), after the named keys were set; OTHER and the package settings file are not touched
+MergeVerdict(c, o) == IF o.out # "ok" THEN "MergeFailed"
+                      ELSE IF ~o.file_is_union THEN "MergedFileNotTheUnion"
+                      ELSE IF ~o.other_same THEN "MergedInFileChanged"
+                      ELSE IF ~o.settings_same THEN "OtherFileChangedByMerge" ELSE "ok"
+\* a run with -c FILE: plot settings given in FILE are in effect for the figures of that run (observed in a fresh process)
+RunOverrideVerdict(c, o) == IF o.out # "ok" THEN "RunWithConfigFailed"
+                            ELSE IF ~o.effective THEN "ConfigDoesNotOverrideSettings"
+                            ELSE IF ~o.file_same THEN "SettingsFileChangedByRun" ELSE "ok"
+
 \* generated config: for each option of the argument list the two parses agree, integers stay integers
 \* c.opts = Seq(kind), o.eq = Seq(BOOLEAN), o.intok = Seq(BOOLEAN), o.extra (keys in the config that are not options)
 GenVerdict(c, o) ==
